@@ -11,6 +11,7 @@ mod d_hub;
 mod d_hubworld;
 mod d_misc;
 mod d_world2;
+mod d_migrate;
 
 pub struct Rng(pub u64);
 impl Rng {
@@ -43,6 +44,7 @@ fn driver(name: &str) -> Box<dyn Driver> {
         "hub_op" => Box::new(d_hubworld::HubOp),
         "registry_remove" => Box::new(d_world2::RegistryRemove),
         "dispatcher_swap" => Box::new(d_world2::DispatcherSwap),
+        "hub_migrate" => Box::new(d_migrate::HubMigrate),
         other => {
             if let Some(d) = d_hub::driver(other) { return d; }
             if let Some(d) = d_misc::driver(other) { return d; }
